@@ -13,7 +13,14 @@
 (***************************************************************************)
 EXTENDS Naturals, Sequences
 
-RareChars == {9, 13, 32, 127, 133, 160, 173, 5760, 8192, 8195, 8202, 8232, 8233, 8239, 8287, 12288, 65279,
+\* + the bidi formatting characters (RFC 3987 4.1 discourages them, the grammar allows them), and
+\* characters that ALIAS a delimiter: one UTF-8 byte = delimiter + 128 (U+00BA, U+00AF, U+00BF, U+00A3,
+\* U+00A5, U+00AE, U+00FA, U+06C0, U+0740) or the low byte of the code point = delimiter (U+043A ":",
+\* U+042F "/", U+043F "?", U+0423 "#", U+0440 "@", U+045B "[", U+045D "]", U+0425 "%", U+042E ".")
+RareChars == {8206, 8207, 8234, 8238, 8294, 8297,
+              186, 175, 191, 163, 165, 174, 250, 1728, 1856,
+              1082, 1071, 1087, 1059, 1088, 1115, 1117, 1061, 1070, 20026, 26415,
+              9, 13, 32, 127, 133, 160, 173, 5760, 8192, 8195, 8202, 8232, 8233, 8239, 8287, 12288, 65279,
               55295, 57344, 63743, 63744, 64975, 64976, 65007, 65008, 65519, 65520, 65533, 65534,
               65536, 131069, 131070, 917504, 917505, 983040, 1048573, 1048576, 1114109, 1114111}
 
